@@ -179,7 +179,7 @@ static int fault_decide_w(int64_t off) {
         int64_t i = arm_seen++;
         if (i != arm_nth) return 0;
         arm_fired++;
-        return arm_kind == 1 ? 2 : 1;
+        return arm_kind == 1 ? 2 : (arm_kind == 3 ? 3 : 1);
     }
     return fault_decide(1);
 }
@@ -193,6 +193,16 @@ static int fault_decide(int cls) {
     if (i != arm_nth) return 0;
     arm_fired++;
     if (arm_kind == 1 && cls == 1) return 2;
+    if (arm_kind == 3 && cls == 1) return 3; /* short write that is NOT followed by an error */
+    return 1;
+}
+
+/* class 4: the nth mmap of the database file fails with ENOMEM */
+static int fault_decide_mmap(void) {
+    if (arm_class != 4) return 0;
+    int64_t i = arm_seen++;
+    if (i != arm_nth) return 0;
+    arm_fired++;
     return 1;
 }
 
@@ -320,6 +330,10 @@ ssize_t write(int fd, const void *buf, size_t count) {
         if (half >= count) half = count - 1;
         if (half == 0) { ret = -1; err = arm_errno; }
         else { ret = real_write(fd, buf, half); cont_fail = 1; }
+    } else if (d == 3) {
+        size_t half = short_len > 0 ? (size_t)short_len : count / 2;
+        if (half >= count) half = count - 1;
+        ret = half == 0 ? real_write(fd, buf, count) : real_write(fd, buf, half);
     } else ret = real_write(fd, buf, count);
     if (ret < 0 && !err) err = errno;
     log_rec(2, fd, off, count, ret, err, ret > 0 ? buf : 0, ret > 0 ? (uint64_t)ret : 0);
@@ -344,6 +358,10 @@ ssize_t pwrite64(int fd, const void *buf, size_t count, off64_t off) {
         if (half >= count) half = count - 1;
         if (half == 0) { ret = -1; err = arm_errno; }
         else { ret = real_pwrite64(fd, buf, half, off); cont_fail = 1; }
+    } else if (d == 3) {
+        size_t half = short_len > 0 ? (size_t)short_len : count / 2;
+        if (half >= count) half = count - 1;
+        ret = half == 0 ? real_pwrite64(fd, buf, count, off) : real_pwrite64(fd, buf, half, off);
     } else ret = real_pwrite64(fd, buf, count, off);
     if (ret < 0 && !err) err = errno;
     log_rec(3, fd, off, count, ret, err, ret > 0 ? buf : 0, ret > 0 ? (uint64_t)ret : 0);
@@ -400,6 +418,12 @@ int ftruncate64(int fd, off64_t len) {
 void *mmap(void *addr, size_t len, int prot, int flags, int fd, off_t off) {
     init_real();
     if (is_tracked(fd)) gate(5);
+    if (is_tracked(fd)) {
+        pthread_mutex_lock(&mu);
+        int fail = fault_decide_mmap();
+        pthread_mutex_unlock(&mu);
+        if (fail) { errno = ENOMEM; return MAP_FAILED; }
+    }
     void *r = real_mmap(addr, len, prot, flags, fd, off);
     if (is_tracked(fd)) {
         pthread_mutex_lock(&mu);
@@ -414,6 +438,12 @@ void *mmap(void *addr, size_t len, int prot, int flags, int fd, off_t off) {
 void *mmap64(void *addr, size_t len, int prot, int flags, int fd, off64_t off) {
     init_real();
     if (is_tracked(fd)) gate(5);
+    if (is_tracked(fd)) {
+        pthread_mutex_lock(&mu);
+        int fail = fault_decide_mmap();
+        pthread_mutex_unlock(&mu);
+        if (fail) { errno = ENOMEM; return MAP_FAILED; }
+    }
     void *r = real_mmap64 ? real_mmap64(addr, len, prot, flags, fd, off) : real_mmap(addr, len, prot, flags, fd, off);
     if (is_tracked(fd)) {
         pthread_mutex_lock(&mu);
